@@ -1369,7 +1369,7 @@ namespace sim
 	// calls it at every boundary between two events
 	namespace verif
 	{
-		enum step_t { after_handler = 1, before_advance = 2 };
+		enum step_t { after_handler = 1, before_advance = 2, after_advance = 3 };
 		extern SIMULATOR_DECL void (*step_hook)(int);
 	}
 #endif
